@@ -63,7 +63,9 @@ def _unit(s):
     """'1/M**2/s' -> quantities unit (tiny parser: factors separated by * and /, optional **n)"""
     from chempy.units import default_units as u
     table = {"s": u.second, "K": u.kelvin, "M": u.molar, "J": u.joule, "mol": u.mol, "kg": u.kg,
-             "dm3": u.decimetre ** 3, "Gy": u.gray, "1": 1}
+             "dm3": u.decimetre ** 3, "Gy": u.gray, "1": 1,
+             "cal": u.cal, "mM": u.molar / 1000, "ms": u.second / 1000}
+    table["kcal"] = 1000 * u.cal
     if s == "":
         return 1
     out, op, tok = 1, "*", ""
@@ -332,15 +334,16 @@ class _Law(object):
     def __init__(self, case):
         self.c = case["in"]
         self.mode = self.c["mode"]
-        self.units = self.mode == "units"
+        self.units = self.mode in ("units", "units-scaled")
         self.result_units = case["exp"]["result_units"]
         self.nlanes = len(self.c["lane_factors"])
 
     def val(self, name, x):
-        v = float(_num(x))
         if self.units:
-            return v * _unit(self.c["units"].get(name, ""))
-        return v
+            # the magnitude in the unit the case names (unit_factors: size of that unit, from TLC)
+            f = Fraction(*self.c["unit_factors"].get(name, [1, 1]))
+            return float(_num(x) / f) * _unit(self.c["units"].get(name, ""))
+        return float(_num(x))
 
     def given_args(self):
         c = self.c
@@ -379,6 +382,9 @@ class _Law(object):
         mode, where every variable is a symbol that is substituted afterwards"""
         if self.mode in ("math", "units"):
             return fn(variables, math, **kw)
+        if self.mode == "units-scaled":
+            from chempy.units import Backend       # the unit-aware backend
+            return fn(variables, Backend(), **kw)
         if self.mode == "nparray":
             import numpy as np
             return fn(variables, np, **kw)
@@ -462,7 +468,7 @@ class _Law(object):
             Tv = V.get("temperature")
             if self.mode == "math":
                 return p(Tv, backend=math)
-            if self.mode in ("numpy", "units", "nparray"):
+            if self.mode in ("numpy", "units", "units-scaled", "nparray"):
                 return p(Tv)                                   # default backend
             import sympy
             Ts = sympy.Symbol("T")
@@ -708,7 +714,7 @@ def _nontrivial(case):
 
 SLICES_Q = [("resolve_q", ["SetClass", "GenArgs", "GenKeys", "GenVars", "GenResolve"], 1000),
             ("algebra_q", ["GenLeaf", "GenOp", "GenNeg", "FinishTree"], 1600),
-            ("laws_q", ["ChooseLaw", "GenPset", "GenTemp", "Evaluate", "GenStep", "GenFinishHist"], 3500)]
+            ("laws_q", ["ChooseLaw", "GenPset", "GenTemp", "Evaluate", "GenStep", "GenFinishHist"], 3000)]
 SLICES_T = [("resolve_t", [], None), ("algebra_t", [], 40000), ("algebra_t4", [], 40000), ("laws_t", [], None)]
 
 
